@@ -9,6 +9,8 @@
 package main
 
 import (
+	"bytes"
+	"log/slog"
 	"errors"
 	"flag"
 	"fmt"
@@ -328,6 +330,16 @@ func freePort() int {
 			continue
 		}
 		u.Close()
+		if l6, err := net.Listen("tcp", fmt.Sprintf("[::1]:%d", p)); err == nil {
+			l6.Close()
+			u6, err := net.ListenPacket("udp", fmt.Sprintf("[::1]:%d", p))
+			if err != nil {
+				continue
+			}
+			u6.Close()
+		} else if len(v6Keys) > 0 {
+			continue
+		}
 		usedPort[p] = true
 		return p
 	}
@@ -337,6 +349,13 @@ func freePort() int {
 
 var foreignKeys = map[int]bool{}
 
+// keys that live on the IPv6 loopback ([::1]); their datagrams go up to the IPv6 maximum of 65527 bytes
+var v6Keys = map[int]bool{}
+
+// datagram sizes the environment cycles through (the first entry means "just the header line")
+var dgramSizes4 = []int{0, 0, 1200, 65507}
+var dgramSizes6 = []int{0, 65507, 65508, 65527}
+
 func newScenario(tr *hx.Trace, kinds map[int]string) *scenario {
 	sc := &scenario{tr: tr, mgr: service.NewListenerManager(), kinds: kinds, addrs: map[int]string{},
 		slots: map[int]*handle{}, inOp: map[int]string{}, finished: map[int]bool{}, got: map[int]bool{}, waitKey: map[int]int{}, openCnt: map[int]int{}}
@@ -344,7 +363,11 @@ func newScenario(tr *hx.Trace, kinds map[int]string) *scenario {
 	// keys that model the same address for tcp and udp may share a port; simply give each key its own port
 	sc.foreign = map[int]io.Closer{}
 	for k := range kinds {
-		sc.addrs[k] = fmt.Sprintf("127.0.0.1:%d", freePort())
+		if v6Keys[k] {
+			sc.addrs[k] = fmt.Sprintf("[::1]:%d", freePort())
+		} else {
+			sc.addrs[k] = fmt.Sprintf("127.0.0.1:%d", freePort())
+		}
 		if foreignKeys[k] {
 			if kinds[k] == "s" {
 				if l, err := net.Listen("tcp", sc.addrs[k]); err == nil {
@@ -484,15 +507,18 @@ func (sc *scenario) runThread(t int, script []op, s *sched, wg *sync.WaitGroup) 
 					sc.emit(map[string]any{"ev": "AcceptEnd", "t": t, "h": o.H, "res": "err", "item": 0, "err": err.Error(), "injected": inj})
 				}
 			} else {
-				buf := make([]byte, 2048)
+				buf := make([]byte, 65600)
 				n, raddr, err := hnd.pc.ReadFrom(buf)
 				if err == nil {
+					if id, want := parseItemLen(string(buf[:min(n, 64)])); want > 0 && want != n {
+						sc.emit(map[string]any{"ev": "Truncated", "t": t, "h": o.H, "item": id, "size": n, "want": want})
+					}
 					sc.mu.Lock()
-					sc.got[parseItem(string(buf[:n]))] = true
+					sc.got[parseItem(string(buf[:min(n, 64)]))] = true
 					// the address handed out with a datagram must be, and remain, the sender's
-					sc.addrSeen = append(sc.addrSeen, addrObs{item: parseItem(string(buf[:n])), addr: raddr, atReturn: fmt.Sprint(raddr)})
+					sc.addrSeen = append(sc.addrSeen, addrObs{item: parseItem(string(buf[:min(n, 64)])), addr: raddr, atReturn: fmt.Sprint(raddr)})
 					sc.mu.Unlock()
-					sc.emit(map[string]any{"ev": "AcceptEnd", "t": t, "h": o.H, "res": "item", "item": parseItem(string(buf[:n]))})
+					sc.emit(map[string]any{"ev": "AcceptEnd", "t": t, "h": o.H, "res": "item", "item": parseItem(string(buf[:min(n, 64)]))})
 				} else if errors.Is(err, net.ErrClosed) {
 					sc.emit(map[string]any{"ev": "AcceptEnd", "t": t, "h": o.H, "res": "closed", "item": 0})
 				} else {
@@ -511,12 +537,28 @@ func (sc *scenario) runThread(t int, script []op, s *sched, wg *sync.WaitGroup) 
 }
 
 func parseItem(s string) int {
-	s = strings.TrimSpace(s)
-	if strings.HasPrefix(s, "item ") {
-		n, _ := strconv.Atoi(strings.TrimPrefix(s, "item "))
-		return n
+	id, _ := parseItemLen(s)
+	return id
+}
+
+// parseItemLen: an item starts with the line "item <id> [<total length>]"; datagrams may be padded up to that length
+func parseItemLen(s string) (int, int) {
+	if i := strings.IndexByte(s, '\n'); i >= 0 {
+		s = s[:i]
 	}
-	return -1
+	f := strings.Fields(s)
+	if len(f) >= 2 && f[0] == "item" {
+		n, err := strconv.Atoi(f[1])
+		if err != nil {
+			return -1, 0
+		}
+		l := 0
+		if len(f) >= 3 {
+			l, _ = strconv.Atoi(f[2])
+		}
+		return n, l
+	}
+	return -1, 0
 }
 
 // connect: the environment sends a connection / datagram to key k
@@ -542,6 +584,14 @@ func (sc *scenario) connect(k int) {
 		c, err := net.Dial("udp", sc.addrs[k])
 		if err == nil {
 			it.from = c.LocalAddr().String()
+			sizes := dgramSizes4
+			if v6Keys[k] {
+				sizes = dgramSizes6
+			}
+			if want := sizes[id%len(sizes)]; want > 0 {
+				msg = []byte(fmt.Sprintf("item %d %d\n", id, want))
+				msg = append(msg, bytes.Repeat([]byte{'x'}, want-len(msg))...)
+			}
 			_, err = c.Write(msg)
 			it.ok = err == nil
 			c.Close()
@@ -989,10 +1039,14 @@ func main() {
 	ops := fs.Int("ops", 4, "ops per thread")
 	conns := fs.Int("conns", 3, "connections/datagrams per round")
 	churnDur := fs.Duration("dur", 3*time.Second, "churn: how long to run")
+	debugLog := fs.Bool("debuglog", false, "default logger at debug level (what -verbose does in the server); output discarded")
 	many := fs.Int("many", 0, "extra rounds with this many addresses, all listened on and then all closed")
 	wd := fs.Duration("watchdog", 2*time.Second, "deadlock watchdog")
 	stepTO := fs.Duration("steptimeout", 500*time.Millisecond, "per-step timeout of the schedule replayer")
 	fs.Parse(os.Args[2:])
+	if *debugLog {
+		slog.SetDefault(slog.New(slog.NewTextHandler(io.Discard, &slog.HandlerOptions{Level: slog.LevelDebug})))
+	}
 	tr := hx.NewTrace(*out)
 	defer tr.Close()
 	defer hx.ReleasePorts()
@@ -1016,14 +1070,18 @@ func main() {
 		}
 	case "stress":
 		rng := rand.New(rand.NewSource(*seed))
-		kinds := map[int]string{1: "s", 2: "p", 3: "s", 4: "s", 5: "p"}
+		kinds := map[int]string{1: "s", 2: "p", 3: "s", 4: "s", 5: "p", 6: "p"}
 		foreignKeys[4], foreignKeys[5] = true, true
-		keys := []int{1, 2, 3}
+		v6Keys[6] = true // a packet listener on [::1]: datagrams up to 65527 bytes
+		keys := []int{1, 2, 3, 6}
 		for r := 0; r < *rounds; r++ {
 			leaks0, _ := countLeaks()
 			sc := newScenario(tr, kinds)
 			// fewer keys => more sharing and more last-close/listen races
 			ks := keys[:1+rng.Intn(3)]
+			if r%4 == 3 {
+				ks = []int{6, 2}[:1+rng.Intn(2)] // packet listeners only, the IPv6 one first
+			}
 			if rng.Intn(3) == 0 {
 				ks = append(append([]int{}, ks...), 4+rng.Intn(2)) // some listens must fail: a foreign socket holds the address
 			}
